@@ -201,6 +201,9 @@ func doBurst(c *cmd) {
 						res["status"] = hresp.StatusCode
 						res["body"] = b64(body)
 						res["ct"] = hresp.Header.Get("Content-Type")
+						if h := hresp.Header.Get("X-Hook"); h != "" {
+							res["hook_header"] = h
+						}
 						return
 					}
 					inv := shared[bc.Client]
